@@ -45,6 +45,14 @@ CLAIMED = {
          "Seeded deterministic differential simulation: a tree containing barriers / secondary errors / Mark references and its twin (every hidden sub-tree of a barrier, secondary error or error argument replaced by a bare error with the same text) travel the same route over knowing and unknowing processes; per delivery the visible chain, root cause, every accessor, HasType/As for every hidden type, the nodes shown to If and Is/IsAny against every hidden layer and sentinel must agree; direct checks: Handled keeps the text, *WithMessage replaces it, Mark adds no accessor result and matches no inner layer of its reference, the hidden error stays visible in %+v locally and after transfer. Sampling, not proof.",
          "5/C07", "trusted: the twin construction; at processes not knowing barrierErr texts are compared modulo marker characters and Is is not compared (recorded C04 finding); accessors that are outermost-layer tests or defined through Is are excluded from the Mark check",
          "deterministic simulation: differential twin runs through the simulated cluster with per-delivery hiding invariants"),
+ "C15": ("exploration",
+         "Seeded deterministic simulation observing generated trees locally and after each hop between knowing processes (stacks re-parsed from text); the report is compared with an oracle recomputed from public accessors over an independent pre-order walk: message prefix, one composition line per layer, one exception per stack-carrying layer outermost first with deep-equal frames and the domain as module (one synthetic exception when none), one 'error types' line per layer, nothing for nil. Sampling, not proof.",
+         "5/C15", "trusted: obs tree walker (same pre-order as documented: node, single cause, then multi-cause branches); line multiset comparison for the 'error types' extra",
+         "deterministic simulation: cluster simulation with a recomputed-report oracle per delivery"),
+ "C17": ("exploration",
+         "Code versions simulated as registry sets built with hook H1 (never knew the type / original name / two alternative renames / chained renames of length 2 and 3 registered in every permutation, decoders registered afterwards). Exhaustive part: sender x optional intermediary x receiver x form x permutation on two fixed carriers; seeded part: 1..3 hops with the renamed node grafted into generated carrier trees and a second differently-versioned sender. Oracles: wire family name is the original key, GetTypeKey of the newest name is order-independent, decode yields the receiver's current type (opaque at unknowing ones), Is against a locally built equivalent, copies from different versions Is-equal both ways at every receiver, duplicate migration target rejected.",
+         "5/C17", "trusted: hook H1; the version table; Go types of all names are linked into one binary (DESIGN.md 8.3)",
+         "deterministic simulation: multi-version cluster simulation (per-process registry sets), exhaustive configuration sweep + seeded carriers"),
 }
 
 NOT_APPLICABLE = {
